@@ -54,7 +54,7 @@ MIXED_ENUM_OPERANDS = [["tag", "a"], ["tag", "order"], ["tag", "-a"], ["tag", "~
 
 PROTOCOLS = ("v1", "auto")
 HOWS = ("explicit", "current", "config")
-FORMS = ("list", "string", "string-blanks")
+FORMS = ("list", "list-blanks", "string", "string-blanks")
 
 
 # ---------------------------------------------------------------------------
@@ -75,6 +75,17 @@ def v1_render(groups, form):
     args = v1_args(groups)
     if form == "list":
         return args
+    if form == "list-blanks":
+        # blanks around the comma / the argument (as in  --tags="@a, @b"  or a config-file line  tags = @a, @b):
+        # white space never separates alternatives INSIDE one argument, tags are stripped
+        seps = (u", ", u" , ", u" ,")
+        out = []
+        for gi, group in enumerate(groups):
+            text = lit_text(group[0])
+            for li, lit in enumerate(group[1:]):
+                text += seps[(gi + li) % 3] + lit_text(lit)
+            out.append(u" " + text + u" " if gi % 2 else text)
+        return out
     if form == "string":
         return u" ".join(args)
     if form == "string-blanks":
@@ -121,7 +132,7 @@ def valid_case(case):
     try:
         kind = case["kind"]
         if kind == "v1":
-            if case["how"] == "config" and case["form"] != "list":
+            if case["how"] == "config" and case["form"] not in ("list", "list-blanks"):
                 return False
             return (valid_v1(case["groups"]) and case["form"] in FORMS and case["protocol"] in PROTOCOLS
                     and case["how"] in HOWS)
@@ -322,10 +333,10 @@ def v1_enum():
     index = 0
     for groups in v1_small_formulas(V1_TAGS, V1_ENUM_TAGS):
         for protocol in PROTOCOLS:
-            for form in ("list", "string"):
+            for form in ("list", "list-blanks", "string"):
                 index += 1
                 how = "explicit"
-                if form == "list" and index % 8 == 0:
+                if form != "string" and index % 8 == 0:
                     how = "config"
                 elif index % 5 == 0:
                     how = "current"
@@ -352,7 +363,7 @@ def v1_case_st(draw):
         groups.append(group)
     form = draw(st.sampled_from(FORMS))
     how = draw(st.sampled_from(["explicit", "explicit", "current", "config"]))
-    if how == "config":
+    if how == "config" and form not in ("list", "list-blanks"):
         form = "list"
     return {"kind": "v1", "groups": groups, "form": form, "protocol": draw(st.sampled_from(PROTOCOLS)), "how": how}
 
@@ -407,7 +418,7 @@ def explore(rec):
 
 
 def required_labels(tier):
-    return ["v1:list", "v1:string", "v1:string-blanks", "protocol:v1", "protocol:auto", "how:explicit", "how:current",
+    return ["v1:list", "v1:list-blanks", "v1:string", "v1:string-blanks", "protocol:v1", "protocol:auto", "how:explicit", "how:current",
             "how:config", "v1:groups=3", "v1:alternatives=3", "v1:minus", "v1:tilde", "v1:at", "v1:negated-at",
             "v1:limit", "v1:bare-tag-with-limit", "v1:keyword-substring-tag", "excluded:both-dialects",
             "v2-auto", "v2-auto:single-operand", "v2-auto:keyword-substring-tag", "wildcard", "form:list",
